@@ -738,6 +738,15 @@ fn gen_byz(seed: u64, prop: &str) -> Plan {
             b.plan.knobs.max_outbound = b.plan.knobs.max_outbound.max(3);
             b.plan.knobs.check_point_interval = pick(&mut b.rng, &[4u64, 8, 16]);
         }
+        // a deviating peer poisons the cached hashes at several moments of the sync
+        if b.rng.chance(1, 2) {
+            let peer = 0usize;
+            for _ in 0..b.rng.range(2, 12) {
+                let at = b.rng.range(3_000, until);
+                add(&mut b.plan, at, Action::Inject { peer, spec: InjectSpec { seed: b.rng.next_u64(), kind: 100 } });
+            }
+            b.plan.knobs.check_point_interval = pick(&mut b.rng, &[8u64, 16]);
+        }
         b.plan.flags.push("byz_filters".into());
         b.plan.flags.push("index".into());
     }
@@ -875,6 +884,33 @@ fn gen_c16(seed: u64) -> Plan {
         }
         flags.push("main=1".into());
         flags.push("fork".into());
+        // "fork switches that put a different block at a height that a stored transaction refers
+        // to": every lock script is watched from genesis on, so that the transactions of the
+        // abandoned blocks are stored, and after the switch the user asks for exactly those
+        if b.rng.chance(2, 3) {
+            let scripts: Vec<(ScriptRef, u64)> = (0..b.plan.chain.n_locks).map(|i| (ScriptRef::Lock(i), 0)).collect();
+            add(&mut b.plan, 1, Action::User(UserOp::SetScripts { cmd: SetCmd::All, scripts }));
+            b.plan.chain.max_txs = b.plan.chain.max_txs.max(2);
+            let fork_tip: u64 = b.plan.initial_blocks
+                + b.plan
+                    .actions
+                    .iter()
+                    .filter_map(|a| match &a.action {
+                        Action::Mine { branch: 0, n } if a.at < t => Some(*n),
+                        _ => None,
+                    })
+                    .sum::<u64>();
+            for _ in 0..b.rng.range(2, 6) {
+                let number = fork_tip.saturating_sub(b.rng.range(0, back.saturating_sub(1)));
+                let href = HashRef::Tx { branch: 0, number, k: b.rng.range(0, 2) };
+                let mut at = b.rng.range(1_000, t.max(1_001));
+                for _ in 0..b.rng.range(2, 6) {
+                    let op = if b.rng.chance(1, 2) { UserOp::GetTransaction(href.clone()) } else { UserOp::FetchTransaction(href.clone()) };
+                    add(&mut b.plan, at, Action::User(op));
+                    at += b.rng.range(5_000, 60_000);
+                }
+            }
+        }
     }
     b.plan.flags = flags;
     finish(b, until, 200_000)
@@ -951,14 +987,14 @@ fn gen_c18(seed: u64) -> Plan {
         random_scripts(&mut b, 3, tip)
     };
     add(&mut b.plan, b.rng.range(0, 3_000), Action::User(UserOp::SetScripts { cmd: SetCmd::All, scripts }));
-    let n_sub = if b.rng.chance(1, 6) { b.rng.range(66, 90) } else { b.rng.range(3, 24) };
+    let n_sub = if b.rng.chance(1, 4) { b.rng.range(70, 110) } else { b.rng.range(3, 24) };
     let burst = n_sub > 60;
     let mut t = b.rng.range(10_000, until / 2);
     for _ in 0..n_sub {
         let mutation = if burst {
             match b.rng.below(20) {
                 0 => b.rng.range(1, 14) as u8,
-                1 | 2 => 20,
+                1 | 2 | 3 => 20,
                 _ => 0,
             }
         } else {
@@ -968,7 +1004,8 @@ fn gen_c18(seed: u64) -> Plan {
                 _ => b.rng.range(1, 14) as u8,
             }
         };
-        let source = if b.rng.chance(1, 3) { 1 } else { 0 };
+        // bursts build long chains of dependent pending transactions
+        let source = if b.rng.chance(1, 3) || (burst && b.rng.chance(1, 2)) { 1 } else { 0 };
         let spec = TxSpec { seed: b.rng.next_u64(), source, mutation };
         let op = if b.rng.chance(1, 4) && !burst { UserOp::EstimateCycles(spec) } else { UserOp::SendTransaction(spec) };
         add(&mut b.plan, t, Action::User(op));
